@@ -291,8 +291,20 @@ def verify(h, repo, tier="quick", log=None):
                 cs, _, _ = prove(c, z3.BoolVal(False), timeout, use_cvc5=False)
                 stats["canaries"] = stats.get("canaries", 0) + 1
                 if cs == "PROVED":
-                    obs.append(Ob(pname + "/canary", "VACUOUS", reason="path condition with the contract's "
-                                  "assumptions is unsatisfiable", case=case))
+                    # is it the contract's assumptions themselves (vacuous contract: an error), or only this path's
+                    # decisions (an infeasible path that the branch-time query left undecided: it contributes nothing)?
+                    saved = [f.pc for f in c.frames]
+                    for f in c.frames:
+                        f.pc = []
+                    try:
+                        only_assumptions, _, _ = prove(c, z3.BoolVal(False), timeout, use_cvc5=False)
+                    finally:
+                        for f, pc_ in zip(c.frames, saved):
+                            f.pc = pc_
+                    if only_assumptions == "PROVED":
+                        obs.append(Ob(pname + "/canary", "VACUOUS", reason="the contract's assumptions are unsatisfiable", case=case))
+                    else:
+                        stats["infeasible_paths"] = stats.get("infeasible_paths", 0) + 1
                     continue
                 if not goals:
                     obs.append(Ob(pname + "/feasible", "PROVED", backend="path", time=0.0, case=case))
